@@ -1222,7 +1222,15 @@ func (f *FuncCFG) NodeSites(syms ...string) []site {
 			}
 			if _, isAssign := n.(*ast.AssignStmt); !isAssign {
 				if _, isInc := n.(*ast.IncDecStmt); !isInc {
-					continue
+					// a call statement counts when it is a store through sync/atomic (atomic.StoreUint32(&x.f, v))
+					es, isExpr := n.(*ast.ExprStmt)
+					if !isExpr {
+						continue
+					}
+					call, isCall := es.X.(*ast.CallExpr)
+					if !isCall || !strings.HasPrefix(f.calleeSym(call), "sync/atomic.") {
+						continue
+					}
 				}
 			}
 			// the statement's own operator and direct symbols only: definitions of locals do not leak in
@@ -1257,3 +1265,34 @@ func (f *FuncCFG) CheckMustNode(from []*cfg.Block, targets map[*cfg.Block]bool, 
 	return true, nil, len(sites)
 }
 
+
+// mustBefore: every path from 'from' to each target *site* passes one of the 'must' sites first; inside one basic
+// block the order of the nodes decides (a must-site after the target in the same block does not count).
+func (f *FuncCFG) mustBefore(from []*cfg.Block, targets []site, must []site, assume *Assume) (bool, []string) {
+	mustBlocks := blocksOf(must)
+	first := map[*cfg.Block]int{}
+	for _, m := range must {
+		if i, ok := first[m.blk]; !ok || m.idx < i {
+			first[m.blk] = m.idx
+		}
+	}
+	for _, t := range targets {
+		if i, ok := first[t.blk]; ok && i < t.idx {
+			continue
+		}
+		if i, ok := first[t.blk]; ok && i == t.idx {
+			continue // the target statement itself is the must-site
+		}
+		avoid := map[*cfg.Block]bool{}
+		for b := range mustBlocks {
+			if b != t.blk {
+				avoid[b] = true
+			}
+		}
+		r := f.reach(from, avoid, assume)
+		if _, ok := r[t.blk]; ok {
+			return false, f.pathTo(r, t.blk)
+		}
+	}
+	return true, nil
+}
